@@ -247,10 +247,10 @@ def tree_cells(widths, rng: random.Random, n):
 
 
 def all_cells(tier, seed):
-    widths = [1, 2, 3] if tier == "quick" else [1, 2, 3, 4]
+    widths = [1, 2, 3] if tier == "quick" else [1, 2, 3, 4, 5]
     rng = random.Random(seed)
     cells = binop_cells(widths) + unop_cells(widths) + access_cells(widths) + logic_cells(widths)
-    cells += tree_cells(widths, rng, 40 if tier == "quick" else 300)
+    cells += tree_cells(widths[:4], rng, 40 if tier == "quick" else 600)
     return cells
 
 
@@ -300,7 +300,7 @@ def run(tier: str) -> int:
             "evaluations": len(cells) * 2,
             "rule": "one cell = one operator/operand-type/width/context combination whose output was proved equal to the spec for all operand values",
             "samples": rep.stats.samples or [{"cell": c.key, "body": c.body} for c in cells[:3]],
-            "bounds": {"widths": "1..3" if tier == "quick" else "1..4", "contexts": ["concurrent", "clocked"], "tree_depth": 2},
+            "bounds": {"widths": "1..3" if tier == "quick" else "1..5", "contexts": ["concurrent", "clocked"], "tree_depth": 2},
             "exhaustive": False,
         })
     finally:
